@@ -3,7 +3,6 @@
 use crate::exec;
 use crate::framework::{Ctx, Spec};
 use crate::gen;
-use crate::model::*;
 use crate::mutate;
 use crate::ops::{self, fail, CacheMode, Fail, Op, Sut};
 use crate::repl::{self, apply_proof, create_proof, Plan, Replica};
